@@ -56,7 +56,7 @@ func (r *Run) callSeqRec(fd *FuncDecl, onPath map[*FuncDecl]bool, depth int) []s
 				return true
 			}
 			f, _ := typeutil.Callee(u.Info, c).(*types.Func)
-			if f == nil || !InModule(f) || r.trivialAccessor(f) {
+			if f == nil || !InModule(f) || r.trivialAccessor(f) || higherOrderUtility(f) {
 				return true
 			}
 			k := FuncKey(f)
@@ -101,6 +101,22 @@ func (r *Run) callSeqRec(fd *FuncDecl, onPath map[*FuncDecl]bool, depth int) []s
 		}
 	}
 	return out
+}
+
+// higherOrderUtility: Map / Reduce / Filter / Fold … of pkg/base/utils take the loop body as a function
+// argument; they are loop syntax (replacing one by a `for` loop is not a behaviour change), and the calls
+// made inside the function literal are inventoried with the enclosing function anyway.
+func higherOrderUtility(f *types.Func) bool {
+	if f.Pkg() == nil || !strings.Contains(f.Pkg().Path(), "/pkg/base/utils") {
+		return false
+	}
+	sig := f.Type().(*types.Signature)
+	for i := 0; i < sig.Params().Len(); i++ {
+		if _, ok := sig.Params().At(i).Type().Underlying().(*types.Signature); ok {
+			return true
+		}
+	}
+	return false
 }
 
 // constStringArg: a constant string argument, or the constant suffix of `prefix + "CONST"`, also when
@@ -291,7 +307,7 @@ func (r *Run) CheckCallSeq(rule, name string, scope Scope, min int, ordered bool
 		for _, c := range ws {
 			found := false
 			for _, h := range now {
-				if callCovers(c, h) {
+				if callCovers(r.normRenamed(c), r.normRenamed(h)) {
 					found = true
 					break
 				}
